@@ -15,6 +15,19 @@ def handle : List String → String
         if check c cert then
           "accept\t" ++ toString (maxCert cert) ++ "\t" ++ toString (cert.toList.filter Option.isSome).length
         else "reject\tcertificate refused by the verified checker (end-of-code height or structure)"
+  | ["cert", kind, text] =>
+    -- the accepted certificate itself: the height at every slot position (`-` = not an
+    -- instruction boundary or unreachable); the harness compares it with the REAL operand-stack
+    -- height at every instruction the real VM dispatches (harness/c04trace.go)
+    match decode (kind == "main") text with
+    | .error e => "error\t" ++ e
+    | .ok c =>
+      match infer c with
+      | .error e => "reject\t" ++ e
+      | .ok cert =>
+        if check c cert then
+          "accept\t" ++ ",".intercalate (cert.toList.map fun x => match x with | some h => toString h | none => "-")
+        else "reject\tcertificate refused by the verified checker"
   | _ => "error\tunknown-request"
 
 end Risor.C04
